@@ -71,6 +71,15 @@ def main(tier):
             if lo <= pos:
                 pos = max(pos, hi + 1)
         run.ob("coverage", "%s: pieces cover every live stamp 0..=32767" % prof, pos > I16_MAX, key="coverage|live stamps not covered up to %d" % pos, detail=covered)
+    # ---- a freshly issued id reads as not removed: it carries the slot's current stamp
+    alloc = e2props.load(run, profiles, ["new_node"])
+    for (prof, entry), recs in sorted(alloc.items()):
+        for rec in recs:
+            if rec["exit"] == "return" and rec.get("returned") is not None:
+                run.ob("issued", "new_node/%s: is_removed(new id) is false at issue time (id.stamp == slot.stamp >= 0)" % prof,
+                       rec.get("returned_id_is_current") is True and rec["returned_stamp_range"][0] >= 0,
+                       key="issued|new_node hands out an id that already reads as removed", detail={k: rec.get(k) for k in ("value", "returned_stamp_range", "returned_id_is_current", "shape")},
+                       nontrivial=("issued", rec.get("shape")))
     # ---- E1: writers and callers
     prog = facts.load("dev", None)
     idx = rules.Index(prog)
